@@ -72,6 +72,29 @@ def term(op, kv):
         return None
     if op in ("iseq", "ispre", "issuf"):
         return f"ev_{op} {nlist(kv.get('x', ''))} {nlist(kv.get('y', ''))}"
+    if op == "iter":
+        b = backend(kv)
+        if b is None or len(kv.get("h", "")) > 500:
+            return None
+        ops = "[" + "; ".join({"N": "ONext", "B": "OBack", "S": "OHint", "C": "OCount"}[c] for c in kv.get("ops", "")) + "]"
+        return f"ev_iter {b} {nlist(kv['ns'])} {int(kv.get('a', 0))} {nlist(kv.get('h', ''))} {ops}"
+    if op == "mmiter":
+        if len(kv.get("h", "")) > 400 or len(kv.get("x", "")) > 200:
+            return None
+        a = int(kv.get("a", 0)); k = int(kv["k"])
+        if kv.get("dir") == "r":
+            return f"ev_mmiter_rev {arch(kv)} {a} {nlist(kv.get('h', ''))} {nlist(kv.get('x', ''))} {k}"
+        rk = rank(kv)
+        if rk is None:
+            return None
+        cfg = "PNone" if kv.get("cfg") == "none" else "PAuto"
+        return f"ev_mmiter_fwd {cfg} {rk} {arch(kv)} {a} {nlist(kv.get('h', ''))} {nlist(kv.get('x', ''))} {k}"
+    if op in ("twfind", "twrfind"):
+        if len(kv.get("h", "")) > 400 or len(kv.get("x", "")) > 200 or len(kv.get("x", "")) == 0:
+            return None
+        if op == "twfind":
+            return f"ev_twfind {nlist(kv['x'])} {int(kv.get('a', 0))} {nlist(kv.get('h', ''))}"
+        return f"ev_twrfind {nlist(kv['x'])} {nlist(kv.get('h', ''))}"
     if op in ("rkfind", "rkrfind"):
         if len(kv.get("h", "")) > 400:
             return None
@@ -79,11 +102,39 @@ def term(op, kv):
         return f"ev_{op} {nlist(nx)} {nlist(kv.get('x', ''))} {nlist(kv.get('h', ''))}"
     return None
 
+MOD = 2305843009213693951
+
+def _code_opt(s):
+    if s == "None":
+        return 0
+    return 4 * int(s[5:-1]) + 1
+
+def _fold(codes):
+    acc = 0
+    for c in codes:
+        acc = (acc * 1000003 + c + 1) % MOD
+    return acc
+
 def canon_model(op, res, trace):
     """(tag, value, steps) from the extracted driver's output line"""
     steps = gens.steps_of(trace)
     if res.startswith("Panic"):
         return (2, 0, steps)
+    if op in ("iter", "mmiter"):
+        codes = []
+        for item in ([] if res in ("-", "") else res.split(";")):
+            if ":" in item:                      # find_iter: "<lo>-<hi>:<item>"
+                hint, it = item.split(":")
+                lo, hi = hint.split("-")
+                codes += [4 * (int(lo) * 1048576 + int(hi)) + 2, _code_opt(it)]
+            elif item.startswith("Some(") or item == "None":
+                codes.append(_code_opt(item))
+            elif "-" in item:
+                lo, hi = item.split("-")
+                codes.append(4 * (int(lo) * 1048576 + int(hi)) + 2)
+            else:
+                codes.append(4 * int(item) + 3)
+        return (1, _fold(codes), steps)
     if res == "None":
         return (0, 0, steps)
     m = re.match(r"^Some\((\d+)\)$", res)
@@ -115,7 +166,7 @@ def crosscheck(pid, cases, model_rows, max_cases=300, timeout=900):
     os.makedirs(vlib.CASES, exist_ok=True)
     with open(path, "w") as f:
         f.write("From Coq Require Import List NArith.\nImport ListNotations.\n")
-        f.write("From Memchr Require Import Params Mem.Wrappers Sub.Searcher Sub.Pair Cases.Eval.\n")
+        f.write("From Memchr Require Import Params Mem.Wrappers Mem.Iter Sub.TwoWay Sub.Searcher Sub.Pair Cases.Eval.\n")
         f.write("Eval vm_compute in [\n  " + ";\n  ".join(t for (_, t, _) in picked) + "\n].\n")
     try:
         p = subprocess.run(["coqc", "-noglob", "-Q", vlib.COQ, "Memchr", path], stdout=subprocess.PIPE,
